@@ -1,0 +1,15 @@
+//go:build verif
+
+package atp
+
+// VerifHook, when set, is called at the instrumentation points used by the verification harness
+// (build tag "verif"). Points ending in ".pre" are placed immediately before a lock acquisition or a
+// blocking call; all other points are placed after the state change they report, inside the critical
+// section that protects it.
+var VerifHook func(point string, kv ...any)
+
+func vh(point string, kv ...any) {
+	if h := VerifHook; h != nil {
+		h(point, kv...)
+	}
+}
